@@ -399,7 +399,9 @@ public:
         const auto& args2 = pNested->GetArguments();
         args_new.insert(args_new.end(),
                         args2.begin(), args2.end());
-        MPD( DecrementVarUsage(v) );
+        // The nested constraint stays: its result can have other
+        // uses which the usage counter does not see
+        // (e.g., 1-v in the conversion of an implication).
       } else {
         args_new.push_back(v);
       }
